@@ -8,8 +8,8 @@ mkdir -p "$V/work/bin" "$V/coq/gen"
 if [ ! -x "$V/work/bin/gotrans" ] || [ -n "$(find "$V/gotrans" -name '*.go' -newer "$V/work/bin/gotrans" 2>/dev/null)" ]; then
   (cd "$V/gotrans" && go build -o "$V/work/bin/gotrans" .)
 fi
-"$V/work/bin/gotrans" "$REPO" "$V/gotrans/targets.json" "$V/coq/gen/Gen.v.new"
-if ! cmp -s "$V/coq/gen/Gen.v.new" "$V/coq/gen/Gen.v" 2>/dev/null; then mv "$V/coq/gen/Gen.v.new" "$V/coq/gen/Gen.v"; else rm -f "$V/coq/gen/Gen.v.new"; fi
+"$V/work/bin/gotrans" "$REPO" "$V/gotrans/targets.json" "$V/coq/gen/Gen.v.new.$$"
+if ! cmp -s "$V/coq/gen/Gen.v.new.$$" "$V/coq/gen/Gen.v" 2>/dev/null; then mv "$V/coq/gen/Gen.v.new.$$" "$V/coq/gen/Gen.v"; else rm -f "$V/coq/gen/Gen.v.new.$$"; fi
 # lock / channel skeletons of the core packages (gotrans locktrace): coq/gen/GenLocks.v
-"$V/work/bin/gotrans" locktrace "$REPO" "$V/gotrans/locks.json" "$V/coq/gen/GenLocks.v.new"
-if ! cmp -s "$V/coq/gen/GenLocks.v.new" "$V/coq/gen/GenLocks.v" 2>/dev/null; then mv "$V/coq/gen/GenLocks.v.new" "$V/coq/gen/GenLocks.v"; else rm -f "$V/coq/gen/GenLocks.v.new"; fi
+"$V/work/bin/gotrans" locktrace "$REPO" "$V/gotrans/locks.json" "$V/coq/gen/GenLocks.v.new.$$"
+if ! cmp -s "$V/coq/gen/GenLocks.v.new.$$" "$V/coq/gen/GenLocks.v" 2>/dev/null; then mv "$V/coq/gen/GenLocks.v.new.$$" "$V/coq/gen/GenLocks.v"; else rm -f "$V/coq/gen/GenLocks.v.new.$$"; fi
